@@ -323,9 +323,15 @@ def triage(prop, cands, binaries, max_groups=24):
     shrunk_sigs = {}
     for gi, (key, lst) in enumerate(sorted(groups.items(), key=lambda kv: -len(kv[1]))):
         if gi >= max_groups:
-            # too many distinct groups to minimise: report the remaining ones unminimised (they are still violations)
+            # too many distinct groups to minimise: report the remaining ones with their full (unminimised) plan as replay file
             c = lst[0]
-            violations.append((None, '%s %s in %s (%s): %s [%d occurrences, not minimised]' % (c.kind, c.opkind, c.family, c.profile, c.what, len(lst)), c))
+            rep = os.path.join(REPLAYS, '%s-%s-%d.full.replay' % (prop, c.family, c.seed % 10**10))
+            rc, out = sim_cmd(binaries[c.variant], ['plan', c.engine, c.family, c.profile, str(c.seed)] + ([c.fault] if c.fault else []))
+            if rc == 0:
+                open(rep, 'w').write(out)
+            else:
+                rep = None
+            violations.append((rep, '%s %s in %s (%s): %s [%d occurrences, not minimised]' % (c.kind, c.opkind, c.family, c.profile, c.what, len(lst)), c))
             continue
         c = lst[0]
         binary = binaries[c.variant]
@@ -644,7 +650,13 @@ def cmd_replay(path):
         log('HARNESS-FAULT replay not deterministic')
         return 2
     props = m.group(2) if m else '?'
-    viol = (r0 and 'kind=NONE' not in r0.group(0)) or CRASH_RE.search(outs[0][1])
+    if not m and r0:
+        pm = re.search(r'props=(\S+)', r0.group(0))
+        props = pm.group(1) if pm else '?'
+    cm = CRASH_RE.search(outs[0][1])
+    if not m and cm:
+        props = cm.group(7)
+    viol = (r0 and 'kind=NONE' not in r0.group(0)) or cm
     if viol:
         for p in props.split(','):
             log('VIOLATION property=%s replay=%s' % (p, path))
